@@ -62,6 +62,8 @@ class Ctx(object):
         self.bucket_hits = Counter()
         self._case = None
         self._buckets = set()
+        self._kept = []
+        self._case_resid = {}
         self.extra = {}
 
     # -- per case ---------------------------------------------------------
@@ -70,6 +72,7 @@ class Ctx(object):
         self._case = case
         self._buckets = set()
         self._kept = []
+        self._case_resid = {}
         reset_library_state()
 
     # -- history helpers ----------------------------------------------------
@@ -121,6 +124,10 @@ class Ctx(object):
             v = float("nan")
         r = self.resid.get(name)
         bad = not (v <= tol)
+        if tol > 0 and v == v:
+            q = v / tol
+            if q > self._case_resid.get(name, -1.0):
+                self._case_resid[name] = q
         if r is None:
             self.resid[name] = [v if v == v else float("inf"), tol, 1]
         else:
@@ -221,7 +228,12 @@ def run_hypothesis(prop, ctx, unit, n_examples, seed, raise_on=None, shrink_budg
     import hypothesis
     from hypothesis import given, settings, HealthCheck, Phase
     strat = prop.strategy(ctx.tier, unit)
+    # thorough tier: targeted property-based testing - Hypothesis hill-climbs towards inputs that maximise the
+    # residual/tolerance ratio of (up to six of) the property's sub-oracles, i.e. it searches for the worst case
+    targeting = raise_on is None and ctx.tier == "thorough" and getattr(prop, "TARGETED", False)
     phases = (Phase.generate,) if raise_on is None else (Phase.generate, Phase.shrink)
+    if targeting:
+        phases = (Phase.generate, Phase.target)
     best = {"case": None, "calls_after": 0}
 
     @hypothesis.seed(seed)
@@ -235,6 +247,11 @@ def run_hypothesis(prop, ctx, unit, n_examples, seed, raise_on=None, shrink_budg
             if best["calls_after"] > shrink_budget:
                 return
         guarded_check(prop, case, ctx)
+        if targeting:
+            for label in sorted(ctx._case_resid)[:6]:
+                q = ctx._case_resid[label]
+                if q == q and q != float("inf"):
+                    hypothesis.target(min(q, 1e6), label=label)
         if raise_on is not None and raise_on in ctx._buckets:
             best["case"] = case
             raise _Found()
